@@ -181,8 +181,10 @@ def flat_units(st):
 
 
 def snapshot(st):
-    return [(u.identifier, list(u.position), None if u.velocity is None else list(u.velocity),
-             None if u.time_stamp is None else (u.time_stamp.quotient, u.time_stamp.remainder)) for u in flat_units(st)]
+    # floats as bit patterns (NaN-safe comparison)
+    return [(u.identifier, [f2b(x) for x in u.position], None if u.velocity is None else [f2b(x) for x in u.velocity],
+             None if u.time_stamp is None else (f2b(u.time_stamp.quotient), f2b(u.time_stamp.remainder)))
+            for u in flat_units(st)]
 
 
 class RecPot:
@@ -231,14 +233,13 @@ def handler_cases(ctx, n_cases):
 
     warn_records = []
 
-    class H(logging.Handler):
-        def emit(self, record):
-            warn_records.append(record.getMessage())
-    lh = H(level=logging.WARNING)
-    jexc._logger.addHandler(lh)
-    old_level, old_prop = jexc._logger.level, jexc._logger.propagate
-    jexc._logger.setLevel(logging.WARNING)
-    jexc._logger.propagate = False
+    class LogStub:
+        """stands in for `jellyfysh.base.exceptions._logger` (independent of the process-wide logging configuration)"""
+
+        def warning(self, msg, *a, **k):
+            warn_records.append(msg)
+    old_logger = jexc._logger
+    jexc._logger = LogStub()
 
     CH = "q"
     req, impl, meta = [], [], []
@@ -444,8 +445,12 @@ def handler_cases(ctx, n_cases):
                     if c > 0.96:
                         next_id = act_unit.identifier if c < 0.98 else (99, 99)
                 mode, dv, dcls = gen_draw(rng, bound, thr)
+                nan_pos = False
                 if kind in (2, 5) and rng.random() < 0.1:
                     guard_ok = False
+                    if rng.random() < 0.4:          # first clause of the guard: a NaN entry in the active position
+                        nan_pos = True
+                        act_unit.position[rng.randrange(3)] = math.nan
 
                 # ---- request line for the model (time-sliced in-state)
                 line = ["send", str(kind), "1" if use_charge else "0", f2b(L), f2b(TINY), f2b(et.quotient), f2b(et.remainder),
@@ -477,7 +482,7 @@ def handler_cases(ctx, n_cases):
                 ins = []
                 lifting.insert.side_effect = lambda dd, ident, active: ins.append((dd, tuple(ident), bool(active)))
                 if kind in (2, 5):
-                    cells.position_to_cell.side_effect = [4 if guard_ok else 5]
+                    cells.position_to_cell.side_effect = [4 if (guard_ok or nan_pos) else 5]
                 if veto:
                     h._bounding_event_rate = b
                 exc = None
@@ -526,9 +531,7 @@ def handler_cases(ctx, n_cases):
         for m, mod in mods.items():
             if saved[m] is not None:
                 mod.random = saved[m]
-        jexc._logger.removeHandler(lh)
-        jexc._logger.setLevel(old_level)
-        jexc._logger.propagate = old_prop
+        jexc._logger = old_logger
         setting.reset()
     return req, impl, meta
 
@@ -587,7 +590,7 @@ def handler_oracle(ctx, line, m):
 
 
 def part_handlers(ctx):
-    n = ctx.n(2500, 60000)
+    n = ctx.n(4000, 25000)
     req, impl, meta = handler_cases(ctx, n)
     rep = ctx.model("thin", req)
     for line, s, r, m in zip(req, impl, rep, meta):
@@ -612,17 +615,14 @@ def part_kernel(ctx):
     rng = ctx.rng
     recs = []
 
-    class H(logging.Handler):
-        def emit(self, record):
+    class LogStub:
+        def warning(self, msg, *a, **k):
             recs.append(1)
-    lh = H(level=logging.WARNING)
-    jexc._logger.addHandler(lh)
-    old_level, old_prop = jexc._logger.level, jexc._logger.propagate
-    jexc._logger.setLevel(logging.WARNING)
-    jexc._logger.propagate = False
+    old_logger = jexc._logger
+    jexc._logger = LogStub()
     try:
         lines, want = [], []
-        for _ in range(ctx.n(3000, 100000)):
+        for _ in range(ctx.n(3000, 40000)):
             b, q, regime = gen_rate_pair(rng)
             mode, dv, dcls = gen_draw(rng, b, q)
             draw = dv if mode == "d" else 0 + (b - 0) * dv
@@ -657,7 +657,7 @@ def part_kernel(ctx):
             def random(self):
                 return self._r
         rr = R()
-        for _ in range(ctx.n(2000, 50000)):
+        for _ in range(ctx.n(2000, 30000)):
             b = rng.choice([rng.uniform(0, 5), 2.0 ** rng.uniform(-1074, 100), 0.0, -0.0, -rng.random(), 5e-324])
             r = rng.choice([rng.random(), 0.0, 1 - 2.0 ** -53, 2.0 ** -53, 0.5])
             rr._r = r
@@ -673,9 +673,7 @@ def part_kernel(ctx):
                 ctx.disagree("thin.uniform (random.Random.uniform of this interpreter)", {"request": l}, w, r)
         ctx.count("kernel:uniform", len(lines))
     finally:
-        jexc._logger.removeHandler(lh)
-        jexc._logger.setLevel(old_level)
-        jexc._logger.propagate = old_prop
+        jexc._logger = old_logger
 
 
 # ------------------------------------------------------------------------------------------------------------------
@@ -751,7 +749,7 @@ def part_domination(ctx):
     ctx.extra["constants_read_from_source"] = consts
     stats = {"points": 0, "sup": 0.0, "argsup": None}
     Ls = [1.0] + ([rng.choice([0.5, 2.0, 3.7, 10.0, 0.123])] if ctx.quick else [0.5, 2.0, 3.7, 10.0, 0.123])
-    budget_s = ctx.n(14.0, 330.0)
+    budget_s = ctx.n(20.0, 240.0)
     t_end = time.time() + budget_s
     try:
         for li, L in enumerate(Ls):
@@ -884,7 +882,7 @@ def part_bound_formula(ctx):
     try:
         P = Pots(1.0)
         lines, want, metas = [], [], []
-        for _ in range(ctx.n(3000, 100000)):
+        for _ in range(ctx.n(3000, 40000)):
             d = rng.randrange(3)
             c = rng.random()
             if c < 0.6:
@@ -942,25 +940,35 @@ def runs_start(ctx):
     for ini, tq, tt in cfgs:
         seed = ctx.rng.randrange(2 ** 31)
         end = tq if ctx.quick else tt
-        p = subprocess.Popen(["/venv/bin/python", helper, ctx.root, ini, str(end), str(seed)], stdout=subprocess.PIPE,
-                             stderr=subprocess.PIPE, text=True, cwd=ctx.root, env=dict(os.environ, PYTHONPATH=ctx.root))
-        procs.append((ini, end, seed, p))
+        # output goes to files next to the scratch tree (a pipe would block the child until it is drained)
+        base = os.path.join(os.path.dirname(ctx.root), "c04_run_%d" % len(procs))
+        fo, fe = open(base + ".out", "w"), open(base + ".err", "w")
+        p = subprocess.Popen(["/venv/bin/python", helper, ctx.root, ini, str(end), str(seed)], stdout=fo, stderr=fe,
+                             cwd=ctx.root, env=dict(os.environ, PYTHONPATH=ctx.root))
+        fo.close()
+        fe.close()
+        procs.append((ini, end, seed, p, base))
     return procs
 
 
 def runs_collect(ctx, procs):
     lines, metas = [], []
-    for ini, end, seed, p in procs:
+    deadline = time.time() + ctx.n(20, 90)
+    for ini, end, seed, p, base in procs:
         try:
-            out, err = p.communicate(timeout=ctx.n(60, 600))
+            p.wait(timeout=max(1.0, deadline - time.time()))
         except subprocess.TimeoutExpired:
             p.kill()
-            out, err = p.communicate()
-            ctx.notes.append(f"run {ini} timed out; partial record used")
+            p.wait()
+            ctx.notes.append(f"run {ini} (end_of_run_time {end}) stopped by the time budget; the events recorded so far are used")
+        out, err = open(base + ".out").read(), open(base + ".err").read()
         recs = []
         for ln in out.splitlines():
             if ln.startswith("REC "):
-                recs.append(json.loads(ln[4:]))
+                try:
+                    recs.append(json.loads(ln[4:]))
+                except ValueError:      # a line cut off by the time budget
+                    pass
         done = any(ln.startswith("DONE") for ln in out.splitlines())
         if not done and not recs:
             raise RuntimeError(f"run helper failed for {ini}: {err[-1500:]}")
@@ -1009,7 +1017,7 @@ def run(ctx):
                 "(corners/edges with s_x log-spaced to 1e-8 L, symmetry planes, grid, compass-search iterates), both charge signs, all 3 "
                 "directions, several L; distinct = (family, L, bucket). (3) run events of shipped configurations; distinct = (ini, handler, "
                 "accepted, true>0, uses 1/r bound)")
-    parts = os.environ.get("C04_DEBUG_PARTS", "kernel,formula,handlers,runs,domination").split(",")
+    parts = ("kernel", "formula", "handlers", "runs", "domination")
     t0 = time.time()
     procs = runs_start(ctx) if "runs" in parts else []      # subprocesses work in the background
     try:
@@ -1026,7 +1034,7 @@ def run(ctx):
         runs_collect(ctx, procs)
         procs = []
     finally:
-        for _, _, _, p in procs:
-            p.kill()
+        for pr in procs:
+            pr[3].kill()
     ctx.extra["wall_parts_s"] = {"kernel+formula+handlers": round(t1 - t0, 1), "domination": round(t2 - t1, 1),
                                  "waiting for runs": round(time.time() - t2, 1)}
